@@ -706,6 +706,8 @@ def call_value(eng, f, args, kwargs, s):
                 return bm.FUNCS[name](eng, s, args, kwargs)
         return callcontract.call_function(eng, f, list(args), kwargs, s)
     if isinstance(f, ClassRef):
+        if f.pycls.__module__ == "builtins" and f.pycls.__name__ in bm.FUNCS:
+            return bm.FUNCS[f.pycls.__name__](eng, s, expand_star(eng, args, s), kwargs)
         return callcontract.construct(eng, f.pycls, list(args), kwargs, s)
     if isinstance(f, PyConst) and callable(f.obj):
         return callcontract.call_function(eng, eng.wrap_python(f.obj), list(args), kwargs, s)
